@@ -100,7 +100,19 @@ def to_smt2(assumptions, goal, expect_sat=False, qf=True, watch=None, rounds=Non
         s.add(a)
     if slim_stats is not None:
         stats = dict(stats, slim=slim_stats)
-    return s.to_smt2(), stats
+    return _total_nth(s.to_smt2()), stats
+
+
+_NTH_SPLIT = re.compile(r"\bseq\.nth_[ui]\b")
+
+
+def _total_nth(smt2):
+    """z3's simplifier rewrites s[i] into ite(0 <= i < len(s), seq.nth_i(s, i), seq.nth_u(s, i)).  When that TEXT is parsed
+    again, z3 reads every `seq.nth_i` term as carrying its in-range condition as a FACT - also under a false ite guard - so a
+    printed query can be strictly stronger than the formula it was printed from (found by the two-solver thorough tier: z3
+    answered unsat, cvc5 produced a model, and the unsat core was `len(s) <= 0` plus a guarded nth_i(s, len(s) - 1)).  Both
+    internal symbols are therefore printed as the total function seq.nth, which is what they were."""
+    return _NTH_SPLIT.sub("seq.nth", smt2)
 
 
 def _model_to_dict(m):
@@ -278,6 +290,11 @@ def decide(job):
             res["second"] = r2
             if r2 in ("sat", "unsat") and r2 != r:
                 res["verdict"] = "disagree"
+                try:      # keep the query: a disagreement must be looked at by hand
+                    with open(os.path.join(os.environ.get("TMPDIR", "/tmp"), f"disagree_{os.getpid()}_{job['id']}.smt2"), "w") as fh:
+                        fh.write(smt2)
+                except OSError:
+                    pass
                 res["detail"] = f"z3={r} cvc5={r2}"
         return res
     if job.get("cvc5_s", 99) <= 6:      # cheap cover / finding probes: cvc5 only
@@ -375,7 +392,12 @@ def work_obj(o, i=0):
         job["seed"] = int(os.environ.get("VERIF_SEED", "0") or 0) % 1000
         gen_s = time.time() - t0
         r = decide(job)
-        if r["verdict"] == "sat" and stats.get("quantified") and not o.expect_sat:
+        z3_distrusted = r["verdict"] == "disagree" and r.get("detail") == "z3=unsat cvc5=sat"
+        if (r["verdict"] == "sat" or z3_distrusted) and stats.get("quantified") and not o.expect_sat:
+            # (two-solver tier) z3 answered unsat and cvc5 produced a model of the SAME instantiated, relevance-filtered query: z3's
+            # answer is not trusted for it (one such case was traced to z3 itself: unsat with `i >= 0`, sat with `i = 0` and with
+            # `i = 5`).  The query is treated like a candidate model: the ladder below rebuilds it with every instance, and only an
+            # `unsat` on which the solvers do NOT disagree is a proof; a disagreement on the last rung stays a checker failure.
             # A model of the instantiated query is only a CANDIDATE (instantiation weakens the hypotheses).  Refinement
             # ladder: the same rounds without the relevance filter, then more rounds; the first `unsat` is a proof.  A `sat`
             # is believed only from a rung that uses every instance; if those rungs are undecided so is the obligation.
@@ -394,8 +416,12 @@ def work_obj(o, i=0):
                         break
                     if rb["verdict"] == "sat":
                         cand = (rb, statsb, smt2b)
+                    if rb["verdict"] == "disagree":
+                        first = rb
                 else:
-                    if cand is not None:
+                    if first["verdict"] == "disagree":
+                        r = first
+                    elif cand is not None:
                         r, stats, smt2 = cand
                     elif stats.get("relevance"):
                         r = dict(first, verdict="unknown", model=None,
